@@ -53,7 +53,7 @@ class FrozenClock(Exception):
     pass
 
 
-def run_bounded(sim, max_events_per_instant: int = 5000, max_events: int = 200000, wall_s: float = 30.0):
+def run_bounded(sim, max_events_per_instant: int = 5000, max_events: int = 200000, wall_s: float = 300.0):
     """Run a Simulation with a frozen-clock watchdog, without attaching the control
     surface (which would switch the engine to its instrumented loop).  The heap's
     pop is wrapped on this instance only.  Returns (summary | None, verdict) with
